@@ -346,7 +346,7 @@ impl<'a> Packet<'a> {
     }
     /// Parse a packet.
     ///
-    /// `buffer` needs to have at least size `MAX_PAYLOAD`.
+    /// `buffer` needs to have at least size `MAX_PACKETSIZE`.
     pub fn read<'b, B, W>(
         warn: &mut W,
         bytes: &'b [u8],
